@@ -151,6 +151,9 @@ def outcome_menu(cfg):
             menu += ['code_listed', 'code_listed2', 'code_unlisted']
     if notif:
         menu += ['ok_empty']          # the transport answers a notification with an empty body ('')
+        if not cfg.get('strict', True):
+            # a lenient client whose transport hands back what the server answered to a notification: an error object with a listed code
+            menu += ['notif_reply_listed']
     menu += ['exc_listed', 'exc_sub', 'exc_listed2', 'exc_unlisted']
     if cfg.get('c19'):
         if not notif:
@@ -173,6 +176,8 @@ def body_for(cfg, name, k):
         return {'code': code, 'message': 'attempt %d' % k, 'data': {'attempt': k}}
     if name == 'ok_empty':
         return ''
+    if name == 'notif_reply_listed':
+        return json.dumps(dict(jsonrpc='2.0', id=None, error={'code': C1, 'message': 'attempt %d' % k}))
     if name == 'ok':
         if not ids:
             return None
